@@ -4,7 +4,7 @@ import json, os, re
 from collections import Counter
 from . import build, corr, props
 
-NEEDS_RACE = set()
+NEEDS_RACE = {"C11"}
 CHECKS = {}
 
 
@@ -232,6 +232,97 @@ def c04(ctx):
                        "complete, missing one name, nil, with extras; every rendering repeated 5 times (fresh Go map "
                        "order); non-trivial = distinct value x options with >= 2 placeholders")
     ctx.cov["samples"] = samples([c for c in cases if c["binds"]] or cases)
+
+
+# ------------------------------------------------------------------------------------ C05 / C10 / C11
+
+def special_mode_raw(ctx, mode, extra, race=False, timeout=3000):
+    os.makedirs(build.WORK, exist_ok=True)
+    out = os.path.join(build.WORK, f"{mode}-{os.getpid()}.jsonl")
+    exe = os.path.join(build.BIN, "harness-race" if race else "harness")
+    rc, o, _ = build.sh([exe, "-mode", mode, "-seed", str(ctx.seed), "-out", out] + extra, timeout=timeout)
+    cases = [json.loads(l) for l in open(out)] if os.path.exists(out) else []
+    if os.path.exists(out):
+        os.unlink(out)
+    return cases, rc, o
+
+
+@check("C05")
+def c05(ctx):
+    props.check_props_file(ctx, "Props/C05.v")
+    n, steps = (250, 40) if ctx.quick() else (8000, 60)
+    hist = special_mode_cases(ctx, "c05", ["-n", str(n), "-depth", str(steps)])
+    ev = forks = 0
+    methods = set()
+    for h in hist:
+        ev += h["steps"]
+        forks += h["forks"]
+        methods.update(h["methods"])
+        for v in h["violations"]:
+            ctx.violation("a derivation changed what an earlier value renders to", {"history": h["id"], "detail": v[:3000]})
+    # the batch form and the JSON histories of C16 also continue the batch builder after End()
+    ctx.cov["evaluations"] = ev
+    ctx.cov["distinct_nontrivial"] = forks
+    ctx.cov["history_trees"] = len(hist)
+    ctx.cov["distinct_methods_used_as_continuation"] = len(methods)
+    ctx.cov["rule"] = (f"history trees of {steps} derivation steps: any live value (structured and type-directed bases, incl. the JSON "
+                       "batch builder) is continued by a random method found by reflection, recent values and already continued "
+                       "values preferred; after every call every live value is re-rendered and compared with its first rendering; "
+                       "evaluations = derivation steps, non-trivial = values continued at least twice (forks)")
+    ctx.cov["samples"] = [{"history": h["id"], "steps": h["steps"], "forks": h["forks"], "methods": h["methods"][:6]} for h in hist[:3]]
+    ctx.assumptions.append("the lowering Go AST -> effect IR (coq/Meta/Lower.v) is the trusted reading of Go's slice / append / "
+                           "value-copy semantics; it is conservative (unknown constructs are rejected)")
+
+
+@check("C10")
+def c10(ctx):
+    props.check_props_file(ctx, "Props/C10.v")
+    n, reps = (150, 20) if ctx.quick() else (1500, 200)
+    res = special_mode_cases(ctx, "c10", ["-n", str(n), "-repeat", str(reps)])
+    ev = 0
+    for r in res:
+        ev += r["renders"]
+        for v in r["violations"][:1]:
+            ctx.violation("repeated rendering of one value differs", {"prog": r["prog"][:1500], "detail": v[:2500]})
+    ctx.cov["evaluations"] = ev
+    ctx.cov["distinct_nontrivial"] = len(res)
+    ctx.cov["rule"] = (f"each value (structured statements; InsertInto/Update.SetMap with 1..64 random keys) rendered {reps} times "
+                       "interleaved with renderings of the other values in one goroutine, then from 16 goroutines; every result "
+                       "(sql, args, error class) compared byte for byte with the first; distinct = values")
+    ctx.cov["samples"] = [{"prog": r["prog"][:200], "renders": r["renders"]} for r in res[:3]]
+    ctx.assumptions.append("partial: goroutine schedules are exercised, not enumerated")
+
+
+@check("C11")
+def c11(ctx):
+    props.check_props_file(ctx, "Props/C11.v")
+    runs = 6 if ctx.quick() else 60
+    ev = 0
+    for k in range(runs):
+        os.environ["GORACE"] = "halt_on_error=0"
+        res, rc, out = special_mode_raw(ctx, "c11", ["-n", "40", "-depth", "120" if ctx.quick() else "600"], race=True)
+        ctx.seed += 1
+        if "DATA RACE" in out or rc == 66:
+            ctx.violation("the race detector reports a data race between goroutines sharing builder values",
+                          {"race_report": out[:6000]})
+            break
+        if rc != 0 or not res:
+            ctx.obligation("race-enabled harness run", False, out[-2000:])
+            break
+        r = res[0]
+        ev += r["ops"]
+        for v in r["violations"][:2]:
+            ctx.violation("a goroutine observed a different result than it would alone", {"detail": v[:3000]})
+    ctx.seed -= runs
+    ctx.cov["evaluations"] = ev
+    ctx.cov["distinct_nontrivial"] = runs * 16
+    ctx.cov["rule"] = ("harness built with -race: 16 goroutines derive from and render 40 shared values (with a few earlier "
+                       "derivations, common sub-expressions and CTE lists) following plans whose results were computed "
+                       "sequentially; every result compared with the sequential one; evaluations = concurrent operations, "
+                       "non-trivial = goroutine runs")
+    ctx.cov["samples"] = [{"goroutines": 16, "shared_values": 40}]
+    ctx.assumptions.append("partial: the Go memory model and scheduler are not modelled; the race detector observes the schedules "
+                           "that happen; regexp.Regexp is trusted to be safe for concurrent use")
 
 
 # ------------------------------------------------------------------------------------ C06
